@@ -1,6 +1,8 @@
 import Pds.Proofs.KernelTie.TdScale
 import Pds.Proofs.KernelTie.TdCore
 import Pds.Props.C04
+import Pds.Proofs.KernelTie.TdMerge
+import Pds.Proofs.KernelTie.TdRead
 import Pds.Proofs.KernelTie.Real
 /-!
 # C04 — tie by translation: the scale functions and centroid arithmetic of `src/tdigest.rs`
@@ -38,5 +40,40 @@ theorem centroid_bound_K1_translated {δ : ℝ} (hδ : 0 < δ) {mb : Nat} {ops :
     ((nCentroids (genK1 δ) s).2 : ℝ) < δ + 1 := by
   rw [genK1_eq] at h ⊢
   exact Pds.Props.C04.centroid_bound_K1 hδ h
+
+/-! ### flow mode: the fusion pass of `merge`, `quantile`, `cdf` -/
+
+/-- `TDigestInner::merge` after its sort, as translated, on the model's sorted input: it leaves exactly the
+centroids of the model's `merge` (every C04 theorem about `merge` — sortedness, the greedy k-size invariant,
+the cluster widths — is about this list) -/
+theorem merge_translated (sf : ScaleFn α) (s : St α) :
+    td_merge_pass s.backlog s.nSamples sf s.centroids
+        ((s.centroids ++ s.backlog.reverse).mergeSort (fun a b => decide (a.mean ≤ b.mean))) =
+      if s.backlog.isEmpty then Flow.ret s.centroids else Flow.cont (merge sf s).centroids := by
+  rw [td_merge_pass_eq]
+  by_cases hb : s.backlog.isEmpty
+  · simp [hb]
+  · simp only [hb, Bool.false_eq_true, if_false]
+    have hne : (s.centroids ++ s.backlog.reverse).mergeSort (fun a b => decide (a.mean ≤ b.mean)) ≠ [] := by
+      intro h
+      have := congrArg List.length h
+      rw [List.length_mergeSort] at this
+      simp at this
+      exact hb (by simp [this.2])
+    unfold merge
+    simp only [hb, Bool.false_eq_true, if_false]
+    cases hx : (s.centroids ++ s.backlog.reverse).mergeSort (fun a b => decide (a.mean ≤ b.mean)) with
+    | nil => exact absurd hx hne
+    | cons c0 rest => simp
+
+theorem quantile_translated (s : St α) (mn mx q : α) (hmin : s.min = some mn) (hmax : s.max = some mx) :
+    td_quantile s.centroids mn mx q =
+      match quantileInner s q with
+      | .nan => Flow.ret KOps.nan
+      | .val v => Flow.ret v
+      | .panic => Flow.panic := td_quantile_eq s mn mx q hmin hmax
+theorem cdf_translated (s : St α) (mn mx x : α) (hmin : s.min = some mn) (hmax : s.max = some mx) :
+    td_cdf s.centroids mn mx x = match cdfInner s x with | some r => Flow.ret r | none => Flow.panic :=
+  td_cdf_eq s mn mx x hmin hmax
 
 end Pds.Tie.C04
